@@ -45,7 +45,7 @@ package snap
 //@   trusted "go-spatial winding.Order.OfPoints (library): a pure function of the ring, assumed not to panic"
 //@ func ensureCorrectWindingOrder
 //@   ensures[C05,C06] len(result) == len(ring)
-//@   ensures[C05,C06] forall(i, 0, len(result), result[i] == ring[i] || result[i] == ring[len(ring) - 1 - i])
+//@   ensures[C05,C06] forall(i Int, 0 <= i && i < len(result) ==> result[i] == ring[i] || result[i] == ring[len(ring) - 1 - i], trigger(result[i]))
 //@ func kmpDeduplicate
 //@   trusted "de-duplication heuristic: appends into a re-sliced ring and uses a sorted-map library, outside the verified subset; only bounded stand-ins (C06)"
 //@   maypanic
